@@ -557,6 +557,11 @@ impl World {
         if drop_bounded(judge) {
             tmp_sweep(&tmp_before);
         }
+        self.template_event(moment, &blk, parent, verdict, on_tip, settled);
+    }
+
+    /// One `Template` event: content in abstract names, sizes, the verdict of whoever judged the sealed block.
+    pub fn template_event(&mut self, moment: &str, blk: &BlockView, parent: Byte32, verdict: String, on_tip: bool, settled: bool) {
         let mut bad: Vec<String> = vec![];
         let mut txs = vec![];
         let mut cycles = 0u64;
@@ -715,7 +720,18 @@ impl World {
     /// Mine the node's own template.
     pub fn mine(&mut self) -> Result<BlockView, String> {
         let b = self.node.mine(0);
-        self.feed(&b).map(|_| b)
+        match self.feed(&b) {
+            Ok(_) => Ok(b),
+            Err(e) => {
+                // the node refused the block sealed from ITS OWN template: that is what C13 forbids - recorded as a template
+                // judged by the node itself (the history ends here: the world's chain no longer follows)
+                if e.starts_with("block rejected") && self.blk_by_hash.contains_key(&b.parent_hash()) | (b.parent_hash() == self.c.genesis_hash()) {
+                    self.n_templates += 1;
+                    self.template_event("self-mined", &b, b.parent_hash(), format!("err: {}", e.chars().take(160).collect::<String>()), false, false);
+                }
+                Err(e)
+            }
+        }
     }
 
     /// Assemble a block with chosen proposals and commits on the node's tip and process it.
